@@ -254,7 +254,13 @@ func (b *OutboundBreaker) init(limit int64, interval time.Duration) (*OutboundBr
 func (b *OutboundBreaker) slide(now time.Time) {
 	// Assumes lock
 	ns := now.Sub(b.updated).Nanoseconds()
-	resolution := b.interval.Nanoseconds() / int64(b.ticks)
+	// Round up: with a shorter resolution the elements would cover
+	// less than the interval, and an interval shorter than 'ticks'
+	// nanoseconds would make the resolution zero.
+	resolution := (b.interval.Nanoseconds() + int64(b.ticks) - 1) / int64(b.ticks)
+	if resolution < 1 {
+		resolution = 1
+	}
 	ticks := int(ns / int64(resolution))
 	if ticks < 1 {
 		// Less than one tick since the last slide.  Leave
